@@ -1,8 +1,10 @@
 (* C19 - styles/style_transformation.py as coded.  The two floating point
    kernels (colorsys round trips in get_opposite_color and in
    AdjustBrightnessStyleTransformation) are parameters [opp] and [adj]: maps
-   from a colour value to the new 6-digit colour; everything around them is
-   modelled statement by statement.  Definitions only. *)
+   from a colour value to the new 6-digit colour ([adj] also takes the two
+   brightness bounds of the node, in thousandths); everything around them is
+   modelled statement by statement.  Model/C19_Float.v instantiates them with
+   the real colorsys arithmetic over binary64 floats.  Definitions only. *)
 From Coq Require Import ZArith List Bool.
 From PTK Require Import Lib.Py Lib.C19_Str Gen.C19_Palette Model.C19_Palette Model.C19_Style.
 Import ListNotations.
@@ -12,7 +14,9 @@ Inductive transf : Type :=
 | TSwap                                   (* SwapLightAndDarkStyleTransformation *)
 | TReverse                                (* ReverseStyleTransformation *)
 | TSetDefault (fg bg : str)               (* SetDefaultColorStyleTransformation(fg, bg) *)
-| TAdjust (valid identity : bool)         (* AdjustBrightness: 0<=min,max<=1 ; min == 0.0 and max == 1.0 *)
+| TAdjust (valid identity : bool) (mn mx : Z)
+                                          (* AdjustBrightness(mn / 1000.0, mx / 1000.0); valid: 0<=min,max<=1 ;
+                                             identity: min == 0.0 and max == 1.0 *)
 | TDummy
 | TCond (filter : bool) (t : transf)      (* ConditionalStyleTransformation *)
 | TMerged (l : list transf)               (* merge_style_transformations *)
@@ -101,7 +105,7 @@ Definition set_default_color (fg bg : str) (a : attrs) : res attrs :=
 
 Definition truthy_b (b : option bool) : bool := match b with Some true => true | _ => false end.
 
-Fixpoint transform (opp adj : kernel) (t : transf) (a : attrs) {struct t} : res attrs :=
+Fixpoint transform (opp : kernel) (adj : Z -> Z -> kernel) (t : transf) (a : attrs) {struct t} : res attrs :=
   match t with
   | TSwap =>
       match get_opposite_color opp (a_color a) with
@@ -115,7 +119,7 @@ Fixpoint transform (opp adj : kernel) (t : transf) (a : attrs) {struct t} : res 
       end
   | TReverse => Ok (set_reverse (Some (negb (truthy_b (a_reverse a)))) a)
   | TSetDefault fg bg => set_default_color fg bg a
-  | TAdjust valid identity => adjust_brightness adj valid identity a
+  | TAdjust valid identity mn mx => adjust_brightness (adj mn mx) valid identity a
   | TDummy => Ok a
   | TCond f t' => if f then transform opp adj t' a else Ok a
   | TMerged l =>
